@@ -29,6 +29,10 @@ def jobs(tier):
         out.append(CH(name=f"c16_total_hole{k}", base="c16_total", func=f"{H}:c16_total", params=[("s", "str")], pre=[f"len(s) <= {n}"],
                       fixed={"pre": a, "post": b, "entry": 0}, timeout=900 if q else 3000, functions=F, twin=False,
                       note=f"hole of <= {n} symbolic characters in the context {a!r} _ {b!r}"))
+    out.append(CH(name="c16_usepulses_autoload", base="c16_usepulses", func=f"{H}:c16_usepulses", params=[("c0", "int"), ("c1", "int"), ("c2", "int")],
+                  pre=["0 <= c0 <= 6", "0 <= c1 <= 6", "0 <= c2 <= 6"], timeout=600, functions=F + ["jaqal_import", "get_jaqal_gates"], twin=False,
+                  note="module name of three solver-chosen picks from ['', '.', 'a', '_', '1', 'b', ' '] in 'from _ usepulses *' with pulse autoloading on and an import "
+                       "directory without modules: JaqalError or ImportError only"))
     for w in range(len(SEMANTIC)):
         out.append(CH(name=f"c16_semantic_{w}", base="c16_semantic", func=f"{H}:c16_semantic", params=[("v", "int"), ("entry", "int")], pre=["-2 <= v <= 4", "0 <= entry <= 2"],
                       fixed={"which": w}, timeout=600, functions=F + ["run_jaqal_string", "expand_macros", "fill_in_let", "fill_in_map"], twin=False,
